@@ -18,6 +18,7 @@ mod c15;
 mod c16;
 mod c17;
 mod eng;
+mod opt;
 mod pair;
 mod stack;
 
@@ -65,6 +66,7 @@ fn main() {
   let obs: Vec<Value> = match args[1].as_str() {
     "c03" => cases.iter().map(c03::run_case).collect(),
     "eng" => cases.iter().map(eng::run_case).collect(),
+    "opt" => opt::run_all(cases),
     "pair" => cases.iter().map(pair::run_case).collect(),
     "c12" => cases.iter().map(c12::run_case).collect(),
     "c10" => c10::run_all(cases, &args[3]),
